@@ -4,7 +4,6 @@ import re
 from collections.abc import MutableMapping
 from typing import Union
 
-import numpy
 
 from .iterators import peekable_iter
 
@@ -96,14 +95,14 @@ def sanitize_variable_name(
     if not base_name or base_name[0].isdigit():
         base_name = "_" + base_name
 
-    # Verify new name is not in env already, and if not add a random suffix.
+    # Verify new name is not in env already, and if it is add a numeric suffix
+    # (deterministic, so that the same expression always sanitizes to the same
+    # name and the state of stateful transforms can be found again).
     new_name = template.format(base_name)
+    suffix = 0
     while new_name in env:
-        new_name = template.format(
-            base_name
-            + "_"
-            + "".join(numpy.random.choice(list("abcefghiklmnopqrstuvwxyz"), 10))
-        )
+        suffix += 1
+        new_name = template.format(f"{base_name}_{suffix}")
 
     # Reuse the value for `name` for `new_name` also.
     if name in env:
